@@ -115,6 +115,12 @@ fn run(ctx: &mut Ctx) {
         count_pool(c, st);
         case_fn(s, c, st)
     });
+    let total_large = ctx.tier.pick(5000, 100000);
+    let strat_large = move || case_strategy_large(&["repeat", "abc", "abc", "digits", "meta", "marks", "boundary", "clusters", "space", "backslash"], W_REPEAT, fix);
+    ctx.generated("gen-large", &strat_large, total_large, &|s, c, st| {
+        count_pool(c, st);
+        case_fn(s, c, st)
+    });
     if ctx.tier == crate::runner::Tier::Thorough {
         ctx.fuzz_campaign("fuzz_lang", 8000);
     }
